@@ -10,6 +10,9 @@ import (
 	"github.com/olive-io/bpmn/v2/pkg/logic"
 	"pgregory.net/rapid"
 
+	"verif/harness/drive"
+	"verif/harness/gen"
+	"verif/harness/model"
 	"verif/harness/rec"
 )
 
@@ -307,6 +310,106 @@ func TestC14Random(t *testing.T) {
 		rec.Case("TestC14Random", hash, nt, cls, d)
 		if v != "" {
 			rt.Fatalf("%s", rec.Fail(rec.Failure{Property: prop, Test: "TestC14Random", Symptom: "accounting", Detail: v, Descriptor: d}))
+		}
+	})
+}
+
+// ---------------------------------------------------------------------------
+// process level: start -> (parallel-)multiple intermediate catch event -> task -> end
+
+type pdesc struct {
+	Defs     []def        `json:"defs"`
+	Parallel bool         `json:"parallel"`
+	PreTask  bool         `json:"preTask"`
+	Script   []drive.Stim `json:"script"`
+}
+
+func buildProc(d pdesc) *gen.Graph {
+	b := gen.NewB()
+	st := b.Add(gen.KStart)
+	cur := st
+	if d.PreTask {
+		t := b.Add(gen.KTask)
+		b.Connect(cur, t)
+		cur = t
+	}
+	c := b.Add(gen.KCatch)
+	c.ParallelMul = d.Parallel
+	for _, df := range d.Defs {
+		switch df.Kind {
+		case "signal":
+			c.Defs = append(c.Defs, gen.EventDef{Kind: "signal", Ref: df.Ref})
+		case "message":
+			c.Defs = append(c.Defs, gen.EventDef{Kind: "message", Ref: df.Ref})
+		default:
+			c.Defs = append(c.Defs, gen.EventDef{Kind: "message", Ref: df.Ref, Op: "op_" + df.Ref})
+		}
+	}
+	b.Connect(cur, c)
+	t := b.Add(gen.KTask)
+	b.Connect(c, t)
+	en := b.Add(gen.KEnd)
+	b.Connect(t, en)
+	return b.G
+}
+
+func evFor(df def) *model.Ev {
+	switch df.Kind {
+	case "signal":
+		return &model.Ev{Kind: "signal", Ref: df.Ref}
+	case "message":
+		return &model.Ev{Kind: "message", Ref: df.Ref}
+	}
+	return &model.Ev{Kind: "message", Ref: df.Ref, Op: "op_" + df.Ref}
+}
+
+func TestC14Process(t *testing.T) {
+	var rd pdesc
+	if ok, err := rec.ReplayInput(&rd); ok {
+		if err != nil {
+			t.Fatal(err)
+		}
+		if rd.Defs == nil {
+			return // a replay file of the satisfier-level tests
+		}
+		out := drive.RunScript(&drive.ScriptCase{Graph: buildProc(rd), Lang: "expr", Script: rd.Script, Drain: true})
+		if out.Symptom != "" {
+			fmt.Printf("REPRODUCED %s: %s\n", out.Symptom, out.Detail)
+			t.Fatalf("%s", out.Symptom)
+		}
+		return
+	}
+	rapid.Check(t, func(rt *rapid.T) {
+		n := rapid.IntRange(1, 4).Draw(rt, "n")
+		d := pdesc{Defs: kindsFor(n, rapid.IntRange(0, 2).Draw(rt, "variant")), Parallel: rapid.Bool().Draw(rt, "parallel"), PreTask: rapid.Bool().Draw(rt, "pre")}
+		if d.PreTask && rapid.Bool().Draw(rt, "earlyEvent") {
+			d.Script = append(d.Script, drive.Stim{Kind: "event", Ev: evFor(d.Defs[0])})
+		}
+		if d.PreTask {
+			d.Script = append(d.Script, drive.Stim{Kind: "answer"})
+		}
+		ne := rapid.IntRange(0, 9).Draw(rt, "events")
+		for i := 0; i < ne; i++ {
+			k := rapid.IntRange(0, n).Draw(rt, "sym")
+			if k == n {
+				d.Script = append(d.Script, drive.Stim{Kind: "event", Ev: &model.Ev{Kind: "signal", Ref: "zz"}})
+			} else {
+				d.Script = append(d.Script, drive.Stim{Kind: "event", Ev: evFor(d.Defs[k])})
+			}
+		}
+		hash := rec.Hash(d)
+		rec.Begin("TestC14Process", hash, d)
+		out := drive.RunScript(&drive.ScriptCase{Graph: buildProc(d), Lang: "expr", Script: d.Script, Drain: true})
+		if out.Inconcl != "" {
+			rec.End(hash, "inconclusive")
+			rec.Inconclusive("TestC14Process", out.Inconcl)
+			rt.Fatalf("inconclusive: %s", out.Inconcl)
+		}
+		rec.End(hash, out.Symptom)
+		rec.Case("TestC14Process", hash, n >= 2 && ne >= 2, []string{fmt.Sprintf("n=%d parallel=%v", n, d.Parallel)}, map[string]any{"case": d, "steps": out.Steps})
+		if out.Symptom != "" {
+			rt.Fatalf("%s", rec.Fail(rec.Failure{Property: prop, Test: "TestC14Process", Symptom: out.Symptom, Detail: out.Detail, Descriptor: d,
+				History: map[string]any{"steps": out.Steps, "traces": out.Traces, "xml": out.XML}}))
 		}
 	})
 }
